@@ -408,6 +408,10 @@ def check_floor_split(prog, rep, rule='R6.3'):
 def check_scope_headers(prog, rep):
     """R6.7: every Open{Array,Object,Binary}Scope of the MsgPack write scopes (root, array element, keyed object member) emits the header of
     its own family - BeginArray / BeginMap / BeginBinary - with the size it was given (a helper called from the method is followed)."""
+    from rules import field_counter
+    field_counter.check(prog, rep, 'R6.8')
+    from rules import counted_written
+    counted_written.check(prog, rep, 'R6.9')
     rep.rule('R6.7', 'MsgPack write scopes: OpenArrayScope -> BeginArray(size), OpenObjectScope -> BeginMap(size), OpenBinaryScope -> BeginBinary(size) '
                      'in the root, array and object scope', floor=9)
     want = {'OpenArrayScope': 'BeginArray', 'OpenObjectScope': 'BeginMap', 'OpenBinaryScope': 'BeginBinary'}
